@@ -5,17 +5,23 @@ FINDINGS and MUTANTS of check C18 (kept here because report files cannot be writ
 agent; the same text is in the agent's final report). Numbers: unchanged tree at HEAD b270ef3.
 
 ====================================================================================================
-FINDINGS.md - C18 on the unchanged tree
+FINDINGS.md - C18
 ====================================================================================================
 
-Four genuine defects, six signatures. Every first occurrence is re-executed 5 times on freshly built
-state (worker deaths: 5/5 in fresh processes); each has a replay file replay/C18-<n>.json
-(`./run.sh C18 --replay <file>` exits 1 and prints what it observes). Quick and thorough tiers report
-the same six signatures.
+STATUS (HEAD 2b37706): all four defects found by this check are REPAIRED in /repo by additive fix
+commits; KNOWN_FINDINGS.jsonl lists the six signatures as `fixed`; `./run.sh C18 quick|thorough` exits 0
+(quick 11-13 s, 1 593 230 deliveries; thorough 112 s, 9 878 340 deliveries; no worker deaths any more).
 
-D6 (short signatures, fixed by 59f7795) and D13 (nil last commit at the initial height, fixed by
-bc1fdab) no longer reproduce; both regressions are caught (see MUTANTS). D16 is not reachable from the
-wire (see the end).
+  F1 (D14)      a63377d  a precommit for height 0 must not reach the missing last commit
+  F2, F4 (D18a, D18c)  ad4f98a  BitArray.FromProto takes an array whose bits and words disagree as empty
+  F3 (D18b)     2b37706  SetHasProposal ignores and setProposal refuses a proposal naming more than
+                         MaxBlockPartsCount parts. NOT the PartSetHeader.ValidateBasic variant suggested
+                         below: that one made CanonicalizeBlockID panic on unvalidated ids (broke C11/C13/C15).
+  D6  59f7795, D13 bc1fdab were fixed before this check existed; reverting either is caught (MUTANTS).
+
+The descriptions below are kept as the record of what was found at HEAD b270ef3 (four genuine defects,
+six signatures; every first occurrence re-executed 5 times on freshly built state, worker deaths 5/5 in
+fresh processes; line numbers are those of b270ef3).
 
 ----------------------------------------------------------------------------------------------------
 F1 (= D14)  a height-0 precommit halts consensus at the initial height
@@ -158,6 +164,22 @@ c18-m49-bitarray-setindex-bound-dropped        | lib/common: pass               
 c18-vote-validatebasic-type-check-removed      | types: pass                                  | no     | 0 - same reason: an invalid vote type panics in GetReadableVoteTypeString inside Receive (contained),
                                                |                                              |        |    contained_panics 148 -> 1968; on the consensus side HeightVoteSet.AddVote re-checks the type.
 
-8 of 10 caught by the quick tier (exit 1, VIOLATION lines for new signatures); the two that are not
+c18-seeded-addpart-index-off-by-one            | types: pass (no test adds a part at index == total) | YES | 1: BlockPart part.index+part.proof.index+part.proof.total =1,=1,=1 (total 1) -> panic-in-handleMsg
+  (independently seeded, /verif/seeded/C18: PartSet.AddPart `part.Index >= ps.total` -> `>`)     |   in the three node states that hold a part set (prevote-with-block, both commit-wait), any peer.
+                                               |                                              |        |    Was MISSED by the quick tier as first delivered (pairs only on NewRoundStep/VoteSetBits; thorough
+                                               |                                              |        |    caught it as a pair); quick now has the coupled-field groups (coupled.go): caught twice, same
+                                               |                                              |        |    signature; thorough reports the same single signature (the pair groups are subsumed).
+
+Coupled-field groups (kind "coupled", both tiers, 11 node states x {fresh, known} = 22 units, 22 836
+cases, 5.0 worker-seconds, about +1 s wall): the full product of boundary values {0, limit-1, limit,
+limit+1, limit+2, 2^31, 2^32-1 (and 2^63, 2^64-1 for 64-bit fields)} over
+  BlockPart      part.index x part.proof.index x part.proof.total        (limit = part-set total)   7x9x9
+  Vote (x2 seeds) validator_index x validator_address {4 validators, non-validator, len 0/19/21}, raw and signed
+  Proposal       round x pol_round (limit = current round), raw and signed by the proposer
+  NewValidBlock  block_part_set_header.total x block_parts (consistent arrays; limits total and 1601) x is_commit
+  HasVote        index (limit = validator count; 63,64,65) x type x round
+  VoteSetBits    votes (consistent arrays; limits validator count and 10000) x type x round
+
+9 of 11 caught by the quick tier (exit 1, VIOLATION lines for new signatures); the two that are not
 caught do not break the property as stated (contained panic = "at most the sending peer is dropped").
 */
